@@ -109,7 +109,7 @@ def pre_info(v):
     cur = current_snapshot(v)
     return {"digest": view_digest(v), "ids": [s["id"] for s in v["snapshots"]], "rows": current_rows(v), "files": set(cur["files"]),
             "del_path": sorted(cur["files"])[0], "cutoff": v["snapshots"][1]["ts"] + 1 if v["snapshots"][1]["ts"] < v["snapshots"][2]["ts"] else v["snapshots"][2]["ts"],
-            "del_snapshot": v["snapshots"][0]["id"], "pointer": v["metadata_file"], "by_id": {s["id"]: s for s in v["snapshots"]}}
+            "del_snapshot": v["snapshots"][0]["id"], "pointer": v["metadata_file"], "by_id": {s["id"]: s for s in v["snapshots"]}, "current_id": v["current_id"]}
 
 
 def classify(world, sc, pre):
@@ -142,8 +142,15 @@ def classify(world, sc, pre):
         if not new and ids == want and rows == pre["rows"]:
             return "post", v
     elif op == "delete_snapshot":
-        if not new and ids == [i for i in pre["ids"] if i != pre["del_snapshot"]] and rows == pre["rows"]:
-            return "post", v
+        want_ids = [i for i in pre["ids"] if i != pre["del_snapshot"]]
+        if not new and ids == want_ids:
+            if pre.get("current_id") != pre["del_snapshot"]:
+                ok = rows == pre["rows"]
+            else:
+                # the CURRENT snapshot was deleted: the table repoints to a survivor (which one is C09's subject) or is empty
+                ok = any(rows == pre["by_id"][i]["rows"] for i in want_ids) if want_ids else not rows
+            if ok:
+                return "post", v
     return ("other", f"snapshots {len(ids)} (new {len(new)}), rows {sum(rows.values())}"), v
 
 
